@@ -154,6 +154,17 @@ def unit(n, k, shape=None):
     return v.reshape(shape) if shape else v
 
 
+def decorate(ctx, cases, opts=True):
+    """standard generator dimensions added to every case: the memory layout of each argument (seed of Lay) and non-default object options"""
+    for case in cases:
+        case["lay"] = ctx.rng.randrange(2 ** 30)
+        if opts:
+            o = rand_opts(ctx.rng)
+            if o:
+                case["opts"] = o
+    return cases
+
+
 # ------------------------------------------------------------------------------------------------ model calls
 def M(ctx):
     return ctx.get_model()
@@ -224,17 +235,81 @@ def inband(zs, eps):
     return any(band(z.imag, eps, 8.0 * size) or band(z.real, eps) for z in zs)
 
 
+LAYOUTS2 = ["C", "C", "F", "Tview", "strided", "Fstrided", "negstride"]
+LAYOUTS1 = ["C", "C", "strided", "negstride"]
+
+
+class Lay:
+    """memory-layout variants of the arrays handed to the implementation (a standard generator dimension: the value of the argument is the
+    same, its layout in memory is not).  A conversion must depend on the VALUE only: C-contiguous copy, Fortran-ordered copy, transposed view
+    of the transposed copy, non-contiguous slices of a larger C- / Fortran-ordered buffer, negative strides.  The variant of each argument is
+    drawn from random.Random(case['lay']), so a case replays exactly; cases without 'lay' get plain copies."""
+
+    def __init__(self, case):
+        seed = case.get("lay") if isinstance(case, dict) else None
+        self.r = __import__("random").Random(seed) if seed is not None else None
+        self.used = []
+
+    def __call__(self, A):
+        A = np.array(A)
+        if self.r is None or A.ndim not in (1, 2) or A.size == 0:
+            return A
+        kind = self.r.choice(LAYOUTS1 if A.ndim == 1 else LAYOUTS2)
+        self.used.append(kind)
+        if kind == "C":
+            out = np.ascontiguousarray(A)
+        elif kind == "F":
+            out = np.asfortranarray(A)
+        elif kind == "Tview":
+            out = A.T.copy().T
+        elif kind in ("strided", "Fstrided"):
+            big = np.zeros(tuple(2 * n for n in A.shape), dtype=A.dtype, order="F" if kind == "Fstrided" else "C")
+            sl = tuple(slice(None, None, 2) for _ in A.shape)
+            big[sl] = A
+            out = big[sl]
+        else:       # negstride
+            rev = tuple(slice(None, None, -1) for _ in A.shape)
+            out = A[rev].copy()[rev]
+        assert out.shape == A.shape and np.array_equal(out, A)
+        return out
+
+    def many(self, As):
+        return [self(a) for a in As]
+
+
+OPT_CHOICES = {"is_estimation_object": [True, False], "on_para_eq_constraint": [True, False], "on_algo_eq_constraint": [True, False],
+               "on_algo_ineq_constraint": [True, False], "mode_proj_order": ["eq_ineq", "ineq_eq"],
+               "eps_proj_physical": [None, 1e-4, 1e-6], "eps_truncate_imaginary_part": [None, 1e-10]}
+
+
+def rand_opts(rng):
+    """non-default constructor options of State / Povm / Gate / MProcess (projection / estimation settings and tolerances of the OBJECT): the
+    representation conversions of an object must not depend on them.  Half of the cases keep the defaults."""
+    if rng.random() < 0.5:
+        return {}
+    return {k: rng.choice(v) for k, v in OPT_CHOICES.items() if rng.random() < 0.5}
+
+
+def opts_of(case):
+    return dict(case.get("opts") or {})
+
+
 class Cmp:
     """collects comparisons of one case; reports at most one violation per (site, signature)"""
 
-    def __init__(self, ctx, sub, case):
+    def __init__(self, ctx, sub, case, lay=None):
         self.ctx, self.sub, self.case = ctx, sub, case
         self.seen = set()
+        self.lay = lay
 
     def bad(self, site, sig, what):
         if (site, sig) in self.seen:
             return
         self.seen.add((site, sig))
+        if self.lay is not None and self.lay.r is not None:
+            what += " [argument layouts drawn so far: %s]" % ",".join(self.lay.used[-12:])
+        if isinstance(self.case, dict) and self.case.get("opts"):
+            what += " [object options %s]" % (self.case["opts"],)
         self.ctx.violation(self.sub, site, sig, what, self.case)
 
     def eq(self, site, impl, model, what="", tol=TOL, sig="value"):
@@ -465,7 +540,8 @@ def hist_ref(ctx, c, seed_obj):
 def chk_table_history(ctx, case):
     from quara.objects import gate as G, state as S, povm as P
     c = cfg(case["cfg"])
-    K = Cmp(ctx, "table_history", case)
+    L = Lay(case)
+    K = Cmp(ctx, "table_history", case, L)
     ref = hist_ref(ctx, c, case["seed_obj"])
     cs = new_csys(case["cfg"])                    # the system that goes through the history
     H, v, choi, rho = ref["H"], ref["v"], ref["choi"], ref["rho"]
@@ -501,26 +577,26 @@ def chk_table_history(ctx, case):
         sig = "value-after-table-history"
         what = "after the history %s: " % (done,)
         if op == "density":
-            K.eq("state.to_density_matrix_from_vec", S.to_density_matrix_from_vec(cs, v.copy()), rho, what + "vec -> density vs model", sig=sig)
+            K.eq("state.to_density_matrix_from_vec", S.to_density_matrix_from_vec(cs, L(v)), rho, what + "vec -> density vs model", sig=sig)
         elif op == "povm_m":
-            K.eq("povm.to_matrices_from_vecs", P.to_matrices_from_vecs(cs, [v.copy()])[0], rho, what + "vec -> matrix vs model", sig=sig)
+            K.eq("povm.to_matrices_from_vecs", P.to_matrices_from_vecs(cs, [L(v)])[0], rho, what + "vec -> matrix vs model", sig=sig)
         elif op == "vec":
-            K.eq("state.to_vec_from_density_matrix_with_sparsity", S.to_vec_from_density_matrix_with_sparsity(cs, rho.copy()), v, what + "density -> vec (inverse of the model's vec -> density)", tol=1e-10, sig=sig)
+            K.eq("state.to_vec_from_density_matrix_with_sparsity", S.to_vec_from_density_matrix_with_sparsity(cs, L(rho)), v, what + "density -> vec (inverse of the model's vec -> density)", tol=1e-10, sig=sig)
         elif op == "povm_v":
-            K.eq("povm.to_vec_from_matrix_with_sparsity", P.to_vec_from_matrix_with_sparsity(cs, rho.copy()), v, what + "matrix -> vec", tol=1e-10, sig=sig)
+            K.eq("povm.to_vec_from_matrix_with_sparsity", P.to_vec_from_matrix_with_sparsity(cs, L(rho)), v, what + "matrix -> vec", tol=1e-10, sig=sig)
         elif op == "choi_sparse":
-            K.eq("gate.to_choi_from_hs_with_sparsity", G.to_choi_from_hs_with_sparsity(cs, H.copy()), choi, what + "HS -> Choi vs model", sig=sig)
+            K.eq("gate.to_choi_from_hs_with_sparsity", G.to_choi_from_hs_with_sparsity(cs, L(H)), choi, what + "HS -> Choi vs model", sig=sig)
         elif op == "choi_dict":
-            K.eq("gate.to_choi_from_hs_with_dict", G.to_choi_from_hs_with_dict(cs, H.copy()), choi, what + "HS -> Choi vs model", sig=sig)
+            K.eq("gate.to_choi_from_hs_with_dict", G.to_choi_from_hs_with_dict(cs, L(H)), choi, what + "HS -> Choi vs model", sig=sig)
         elif op == "hs_sparse":
-            K.eq("gate.to_hs_from_choi_with_sparsity", G.to_hs_from_choi_with_sparsity(cs, choi.copy()), H, what + "Choi -> HS (inverse of the model's HS -> Choi; plain and dict variants are compared with the same H)", tol=1e-10, sig=sig)
+            K.eq("gate.to_hs_from_choi_with_sparsity", G.to_hs_from_choi_with_sparsity(cs, L(choi)), H, what + "Choi -> HS (inverse of the model's HS -> Choi; plain and dict variants are compared with the same H)", tol=1e-10, sig=sig)
         elif op == "hs_dict":
-            K.eq("gate.to_hs_from_choi_with_dict", G.to_hs_from_choi_with_dict(cs, choi.copy()), H, what + "Choi -> HS", tol=1e-10, sig=sig)
+            K.eq("gate.to_hs_from_choi_with_dict", G.to_hs_from_choi_with_dict(cs, L(choi)), H, what + "Choi -> HS", tol=1e-10, sig=sig)
         elif op == "hs_plain":
-            K.eq("gate.to_hs_from_choi", G.to_hs_from_choi(cs, choi.copy()), H, what + "Choi -> HS", tol=1e-10, sig=sig)
+            K.eq("gate.to_hs_from_choi", G.to_hs_from_choi(cs, L(choi)), H, what + "Choi -> HS", tol=1e-10, sig=sig)
         elif op == "var_rt":
             var = H.reshape(-1)
-            K.eq("gate.to_var_from_choi", G.to_var_from_choi(cs, G.to_choi_from_var(cs, var.copy(), False), False), var, what + "var -> Choi -> var", tol=1e-10, sig=sig)
+            K.eq("gate.to_var_from_choi", G.to_var_from_choi(cs, G.to_choi_from_var(cs, L(var), False), False), var, what + "var -> Choi -> var", tol=1e-10, sig=sig)
         else:
             raise KeyError(op)
 
@@ -626,23 +702,24 @@ def sub_table_history(ctx):
         level = "full" if n == "1q-pauli" else ("medium" if (dim <= 3 or (dim == 4 and not ctx.quick)) else "light")
         cases += history_cases(ctx, n, level)
     ctx.sample("table_history", cases[0])
-    ctx.run_cases("table_history", chk_table_history, cases)
+    ctx.run_cases("table_history", chk_table_history, decorate(ctx, cases, opts=False))
 
 
 # ================================================================================================ states
 def chk_state(ctx, case):
     from quara.objects import state as S
     c = cfg(case["cfg"])
-    K = Cmp(ctx, "state", case)
+    L = Lay(case)
+    K = Cmp(ctx, "state", case, L)
     d, D, cs = c.d, c.D, c.c_sys
     kind = case["kind"]
     if kind == "vec":                       # vec -> density matrix, all variants
         v = np.array(case["v"], dtype=float)
-        st = S.State(cs, v.copy(), is_physicality_required=False)
+        st = S.State(cs, L(v), is_physicality_required=False, **opts_of(case))
         mod = m_op_of_cvec(ctx, c, v)
         K.eq("State.to_density_matrix", st.to_density_matrix(), mod, "to_density_matrix")
         K.eq("State.to_density_matrix_with_sparsity", st.to_density_matrix_with_sparsity(), mod, "with_sparsity")
-        K.eq("state.to_density_matrix_from_vec", S.to_density_matrix_from_vec(cs, v.copy()), mod, "from_vec")
+        K.eq("state.to_density_matrix_from_vec", S.to_density_matrix_from_vec(cs, L(v)), mod, "from_vec")
         ctx.count("state", key=(c.name, "vec", tuple(v)), label="vec->density/" + case.get("gen", "?"))
         if c.hermitian:
             rho = st.to_density_matrix()
@@ -659,7 +736,7 @@ def chk_state(ctx, case):
             var = v[1:] if para else v
             isd = float(1 / np.sqrt(d))
             vals = M(ctx).call("c02.density_of_var", [d, int(para)], [isd] + c.bf + [float(x) for x in var])
-            K.eq("state.to_density_matrix_from_var", S.to_density_matrix_from_var(cs, var.copy(), para), m_cmat(vals, d, d), "from_var para=%s" % para)
+            K.eq("state.to_density_matrix_from_var", S.to_density_matrix_from_var(cs, L(var), para), m_cmat(vals, d, d), "from_var para=%s" % para)
     elif kind == "op":                      # matrix -> vec (truncation, error branch)
         X = uj(case["X"])
         eps = case.get("eps")
@@ -667,7 +744,7 @@ def chk_state(ctx, case):
         exact = m_cvec_of_op(ctx, c, X)
         inband_ = inband(exact, e)
         ms, mv = m_vec_of_op_impl(ctx, c, X, e)
-        r, iv = call(S.to_vec_from_density_matrix_with_sparsity, cs, X.copy(), eps)
+        r, iv = call(S.to_vec_from_density_matrix_with_sparsity, cs, L(X), eps)
         ctx.count("state", key=(c.name, "op", case.get("gen"), tuple(np.round(X.ravel(), 9))), nontrivial=not inband_,
                   label="density->vec/%s/%s" % (case.get("gen", "?"), "in-band" if inband_ else ms))
         if not inband_:
@@ -687,17 +764,17 @@ def chk_state(ctx, case):
                 for para in (True, False):
                     s2, v2 = M(ctx).try_call("c02.var_of_density_impl", [d, int(para)], [ATOL] + c.bf + cflat(X))
                     if eps is None and s2 == "ok":
-                        K.eq("state.to_var_from_density_matrix", S.to_var_from_density_matrix(cs, X.copy(), para), [float(x) for x in v2], "to_var para=%s" % para)
+                        K.eq("state.to_var_from_density_matrix", S.to_var_from_density_matrix(cs, L(X), para), [float(x) for x in v2], "to_var para=%s" % para)
     elif kind == "convert":                 # State.convert_basis / convert_vec
         from quara.objects import matrix_basis as mb
         v = np.array(case["v"], dtype=float)
-        st = S.State(cs, v.copy(), is_physicality_required=False)
+        st = S.State(cs, L(v), is_physicality_required=False, **opts_of(case))
         for tname, tb in other_bases(c):
             Bt = np.array([dense(b) for b in tb])
             impl = st.convert_basis(tb)
             mod = m_convert_vec(ctx, c, Bt, v)
             K.eq("State.convert_basis", impl, mod, "convert_basis -> %s" % tname)
-            K.eq("matrix_basis.convert_vec", mb.convert_vec(v.copy(), cs.basis(), tb), mod, "convert_vec -> %s" % tname)
+            K.eq("matrix_basis.convert_vec", mb.convert_vec(L(v), cs.basis(), tb), mod, "convert_vec -> %s" % tname)
             ctx.count("state", key=(c.name, "convert", tname, tuple(v)), label="convert_vec")
             # same operator, and round trip (target bases here are orthonormal and complete)
             if c.orthonormal and c.complete:
@@ -706,7 +783,7 @@ def chk_state(ctx, case):
                 K.eq("State.convert_basis", op_to, op_from, "operator denoted after convert_basis -> %s" % tname, tol=1e-11, sig="different-operator")
                 back = mb.convert_vec(np.asarray(impl), tb, cs.basis())
                 K.eq("matrix_basis.convert_vec", back, v, "round trip B -> %s -> B" % tname, tol=1e-11, sig="round-trip")
-        st_, _ = call(mb.convert_vec, v.copy(), cs.basis(), mb.get_comp_basis(d + 1))
+        st_, _ = call(mb.convert_vec, L(v), cs.basis(), mb.get_comp_basis(d + 1))
         if st_ != "err":
             K.bad("matrix_basis.convert_vec", "error-branch", "bases of different size accepted")
 
@@ -763,23 +840,24 @@ def sub_state(ctx):
     for n in active_configs(ctx):
         cases += state_cases(ctx, n, 3 if is_smoke(ctx, n) else nn(ctx, n, 8, 40))
     ctx.sample("state", cases[len(cases) // 2])
-    ctx.run_cases("state", chk_state, cases)
+    ctx.run_cases("state", chk_state, decorate(ctx, cases))
 
 
 # ================================================================================================ POVMs
 def chk_povm(ctx, case):
     from quara.objects import povm as P
     c = cfg(case["cfg"])
-    K = Cmp(ctx, "povm", case)
+    L = Lay(case)
+    K = Cmp(ctx, "povm", case, L)
     d, D, cs = c.d, c.D, c.c_sys
     vecs = [np.array(v, dtype=float) for v in case["vecs"]]
     m = len(vecs)
-    pv = P.Povm(cs, [v.copy() for v in vecs], is_physicality_required=False)
+    pv = P.Povm(cs, L.many(vecs), is_physicality_required=False, **opts_of(case))
     mods = [m_op_of_cvec(ctx, c, v) for v in vecs]
     ctx.count("povm", key=(c.name, tuple(np.concatenate(vecs))), label="m=%d/%s" % (m, case.get("gen", "?")))
     K.eq("Povm.matrices", np.array(pv.matrices()), np.array(mods), "matrices()")
     K.eq("Povm.matrices_with_sparsity", np.array(pv.matrices_with_sparsity()), np.array(mods), "matrices_with_sparsity()")
-    K.eq("povm.to_matrices_from_vecs", np.array(P.to_matrices_from_vecs(cs, [v.copy() for v in vecs])), np.array(mods), "to_matrices_from_vecs")
+    K.eq("povm.to_matrices_from_vecs", np.array(P.to_matrices_from_vecs(cs, L.many(vecs))), np.array(mods), "to_matrices_from_vecs")
     K.eq("Povm.vecs", np.array(pv.vecs), np.array(vecs), "vecs", tol=0.0)
     for x in range(m):
         K.eq("Povm.matrix", pv.matrix(x), mods[x], "matrix(%d)" % x)
@@ -827,9 +905,9 @@ def chk_povm(ctx, case):
         vals = M(ctx).call("c02.pvecs_of_var", [d, m, int(para)], [sd] + [float(x) for x in var])
         mvecs = np.array([float(x) for x in vals]).reshape(m, D)
         mmats = np.array([m_op_of_cvec(ctx, c, v) for v in mvecs])
-        K.eq("povm.to_matrices_from_var", np.array(P.to_matrices_from_var(cs, var.copy(), para)), mmats, "to_matrices_from_var para=%s" % para)
+        K.eq("povm.to_matrices_from_var", np.array(P.to_matrices_from_var(cs, L(var), para)), mmats, "to_matrices_from_var para=%s" % para)
         if c.hermitian and c.orthonormal:
-            r, back = call(P.to_var_from_matrices, cs, list(P.to_matrices_from_var(cs, var.copy(), para)), para)
+            r, back = call(P.to_var_from_matrices, cs, list(P.to_matrices_from_var(cs, L(var), para)), para)
             if r == "ok":
                 K.eq("povm.to_var_from_matrices", back, var, "round trip var->matrices->var para=%s" % para, tol=1e-11, sig="round-trip")
             else:
@@ -859,7 +937,7 @@ def sub_povm(ctx):
             m = rng.choice([1, 2, 3, 4])
             cases.append({"cfg": n, "gen": "random", "vecs": [rand_real(rng, c.D).tolist() for _ in range(m)]})
     ctx.sample("povm", cases[-1])
-    ctx.run_cases("povm", chk_povm, cases)
+    ctx.run_cases("povm", chk_povm, decorate(ctx, cases))
 
 
 # ================================================================================================ gates: HS <-> Choi
@@ -870,7 +948,8 @@ def frob(A):
 def chk_gate_choi(ctx, case):
     from quara.objects import gate as G
     c = cfg(case["cfg"])
-    K = Cmp(ctx, "gate_choi", case)
+    L = Lay(case)
+    K = Cmp(ctx, "gate_choi", case, L)
     d, D, cs = c.d, c.D, c.c_sys
     kind = case["kind"]
     if kind == "hs":                     # HS -> Choi, three variants, methods and functions
@@ -881,11 +960,11 @@ def chk_gate_choi(ctx, case):
             for v in (1, 2, 3):          # the Coq definitions of the plain / sparse / dict routes agree (theorem C02_variants_agree)
                 K.eq("model-variants", m_choi(ctx, c, H, v), mod, "model variant %d" % v, tol=0.0)
         Hin = H.real.astype(np.float64) if real else H
-        outs = {"gate.to_choi_from_hs": G.to_choi_from_hs(cs, Hin.copy()),
-                "gate.to_choi_from_hs_with_dict": G.to_choi_from_hs_with_dict(cs, Hin.copy()),
-                "gate.to_choi_from_hs_with_sparsity": G.to_choi_from_hs_with_sparsity(cs, Hin.copy())}
+        outs = {"gate.to_choi_from_hs": G.to_choi_from_hs(cs, L(Hin)),
+                "gate.to_choi_from_hs_with_dict": G.to_choi_from_hs_with_dict(cs, L(Hin)),
+                "gate.to_choi_from_hs_with_sparsity": G.to_choi_from_hs_with_sparsity(cs, L(Hin))}
         if real and not is_smoke(ctx, c.name):      # the methods are thin wrappers of the functions: skipped for the quick-tier d = 6 configuration
-            g = G.Gate(cs, Hin.copy(), is_physicality_required=False)
+            g = G.Gate(cs, L(Hin), is_physicality_required=False, **opts_of(case))
             outs["Gate.to_choi_matrix"] = g.to_choi_matrix()
             outs["Gate.to_choi_matrix_with_dict"] = g.to_choi_matrix_with_dict()
             outs["Gate.to_choi_matrix_with_sparsity"] = g.to_choi_matrix_with_sparsity()
@@ -901,7 +980,7 @@ def chk_gate_choi(ctx, case):
         if real and c.orthonormal and c.hermitian:
             for site, f in (("gate.to_hs_from_choi", G.to_hs_from_choi), ("gate.to_hs_from_choi_with_dict", G.to_hs_from_choi_with_dict),
                             ("gate.to_hs_from_choi_with_sparsity", G.to_hs_from_choi_with_sparsity)):
-                r, back = call(f, cs, ch.copy())
+                r, back = call(f, cs, L(ch))
                 if r == "err":
                     K.bad(site, "unexpected-raise", "raised %s on the Choi matrix of a real HS matrix" % back)
                 else:
@@ -916,13 +995,13 @@ def chk_gate_choi(ctx, case):
             K.eq("model-variants", m_chs(ctx, c, Ch, 1), exact, "model chs definition", tol=0.0)
             K.eq("model-variants", m_chs(ctx, c, Ch, 2), exact, "model chs sparse", tol=0.0)
             K.eq("model-variants", m_chs(ctx, c, Ch, 4), exact_d, "model chs dict lists", tol=0.0)
-        K.eq("gate.to_hs_from_choi", G.to_hs_from_choi(cs, Ch.copy()), exact.real, "Choi -> HS (plain, real part)")
+        K.eq("gate.to_hs_from_choi", G.to_hs_from_choi(cs, L(Ch)), exact.real, "Choi -> HS (plain, real part)")
         herm = bool(np.abs(Ch - Ch.conj().T).max() == 0)
         for site, f, ex, dictv in (("gate.to_hs_from_choi_with_sparsity", G.to_hs_from_choi_with_sparsity, exact, False),
                                    ("gate.to_hs_from_choi_with_dict", G.to_hs_from_choi_with_dict, exact_d, True)):
             inband_ = inband(ex, e)
             ms, mv = m_hs_of_choi_impl(ctx, c, Ch, e, dictv)
-            r, iv = call(f, cs, Ch.copy(), eps)
+            r, iv = call(f, cs, L(Ch), eps)
             ctx.count("gate_choi", key=(c.name, site, case.get("gen"), tuple(np.round(Ch.ravel(), 9))), nontrivial=not inband_,
                       label="choi->hs/%s/%s" % (case.get("gen", "?"), "in-band" if inband_ else ms))
             if inband_:
@@ -978,7 +1057,7 @@ def sub_gate_choi(ctx):
     for n in active_configs(ctx):
         cases += gate_choi_cases(ctx, n, 1 if is_smoke(ctx, n) else nn(ctx, n, 4, 30))
     ctx.sample("gate_choi", cases[len(cases) // 3])
-    ctx.run_cases("gate_choi", chk_gate_choi, cases)
+    ctx.run_cases("gate_choi", chk_gate_choi, decorate(ctx, cases))
 
 
 # ================================================================================================ gates: basis change, process matrix
@@ -992,20 +1071,21 @@ def comm_matrix(d):
 def chk_gate_basis(ctx, case):
     from quara.objects import gate as G
     c = cfg(case["cfg"])
-    K = Cmp(ctx, "gate_basis", case)
+    L = Lay(case)
+    K = Cmp(ctx, "gate_basis", case, L)
     d, D, cs = c.d, c.D, c.c_sys
     H = uj(case["H"])
     real = bool(np.abs(H.imag).max() == 0)
     Hin = H.real.astype(np.float64) if real else H
     X = uj(case["X"])
-    g = G.Gate(cs, Hin.copy(), is_physicality_required=False) if real else None
+    g = G.Gate(cs, L(Hin), is_physicality_required=False, **opts_of(case)) if real else None
     ctx.count("gate_basis", key=(c.name, tuple(np.round(H.ravel(), 9))), label="%s/%s" % ("real" if real else "complex", case.get("gen", "?")))
     img = m_capply(ctx, c, H, X)                                  # the operator the gate maps X to (model, original basis)
     got = {}
     for tname, tb in other_bases(c):
         Bt = np.array([dense(b) for b in tb])
         mod = m_convert_hs(ctx, c, Bt, H)
-        impl = G.convert_hs(Hin.copy(), cs.basis(), tb)
+        impl = G.convert_hs(L(Hin), cs.basis(), tb)
         got[tname] = impl
         K.eq("gate.convert_hs", impl, mod, "convert_hs -> %s" % tname)
         if g is not None:
@@ -1032,10 +1112,12 @@ def chk_gate_basis(ctx, case):
     mod = m_cmat(M(ctx).call("c02.process_matrix", [d], c.bf + cflat(H)), D, D)      # executed through the Choi route (theorem C02_process_matrix_is_choi)
     if d <= 3:       # ... cross-checked against the executed definition Tr[(E_a^dag (x) E_b^T) HS_cb] where that is cheap
         K.eq("model-variants", m_cmat(M(ctx).call("c02.process_matrix", [d, 1], c.bf + cflat(H)), D, D), mod, "model: process matrix, definition route vs Choi route", tol=0.0)
-    impl = G.to_process_matrix_from_hs(cs, Hin.copy())
+    impl = G.to_process_matrix_from_hs(cs, L(Hin))
     K.eq("gate.to_process_matrix_from_hs", impl, mod, "process matrix")
     if g is not None:
         K.eq("Gate.to_process_matrix", g.to_process_matrix(), mod, "to_process_matrix()")
+    if real and c.hermitian and np.abs(np.asarray(impl) - np.asarray(impl).conj().T).max() > 1e-12:      # theorem C02_hermiticity
+        K.bad("gate.to_process_matrix_from_hs", "not-hermitian", "process matrix of a real HS matrix is not Hermitian")
     if c.orthonormal and c.complete:     # defining formula sum chi_ab E_a X E_b^dag = G(X)
         E = [np.asarray(dense(b)) for b in cs.comp_basis()]
         out = sum(impl[a, b] * (E[a] @ X @ E[b].conj().T) for a in range(D) for b in range(D) if impl[a, b] != 0)
@@ -1060,7 +1142,7 @@ def sub_gate_basis(ctx):
             if not smoke:
                 cases.append({"cfg": n, "gen": "random", "H": jc(rand_cplx(rng, c.D, c.D)), "X": jc(rand_cplx(rng, c.d, c.d))})
     ctx.sample("gate_basis", cases[-1])
-    ctx.run_cases("gate_basis", chk_gate_basis, cases)
+    ctx.run_cases("gate_basis", chk_gate_basis, decorate(ctx, cases))
 
 
 # ================================================================================================ Kraus
@@ -1074,7 +1156,8 @@ def kraus_flat(Ks):
 def chk_gate_kraus(ctx, case):
     from quara.objects import gate as G
     c = cfg(case["cfg"])
-    K = Cmp(ctx, "gate_kraus", case)
+    L = Lay(case)
+    K = Cmp(ctx, "gate_kraus", case, L)
     d, D, cs = c.d, c.D, c.c_sys
     Ks = [uj(k) for k in case["Ks"]]
     n = len(Ks)
@@ -1084,7 +1167,7 @@ def chk_gate_kraus(ctx, case):
     K.eq("model-variants", route, spec, "model: implementation route vs specification (theorem C02_kraus_impl_is_spec)", tol=0.0)
     inband_ = inband(spec, ATOL)
     st, val = M(ctx).try_call("c02.hs_of_kraus_impl", [d, n], [ATOL] + c.bf + kraus_flat(Ks))
-    r, hs = call(G.to_hs_from_kraus_matrices, cs, [k.copy() for k in Ks])
+    r, hs = call(G.to_hs_from_kraus_matrices, cs, L.many(Ks))
     ctx.count("gate_kraus", key=(c.name, case.get("gen"), tuple(np.round(np.concatenate([k.ravel() for k in Ks]), 9)) if Ks else ()),
               nontrivial=not inband_, label="kraus->hs/%s/n=%d/%s" % (case.get("gen", "?"), n, "in-band" if inband_ else st))
     if n == 0:
@@ -1110,8 +1193,17 @@ def chk_gate_kraus(ctx, case):
         hsr = np.asarray(hs, dtype=np.float64)
         choi = G.to_choi_from_hs(cs, hsr)
         ev = np.linalg.eigvalsh((choi + choi.conj().T) / 2)
-        g = G.Gate(cs, hsr, is_physicality_required=False)
-        for site, f in (("gate.to_kraus_matrices_from_hs", lambda: G.to_kraus_matrices_from_hs(cs, hsr.copy())), ("Gate.to_kraus_matrices", g.to_kraus_matrices)):
+        # non-default tolerances (explicit atol argument; eps_proj_physical of the object, which Gate.to_kraus_matrices hands to the function):
+        # they govern the CP verdict only - the returned set must still denote the same map (all eigenvalues of the Choi matrix above
+        # Settings.get_atol() contribute), whatever tolerance the object or the caller uses
+        runs = []
+        for tol_ in case.get("tols") or [None]:
+            o = opts_of(case)
+            o["eps_proj_physical"] = tol_
+            g = G.Gate(cs, L(hsr), is_physicality_required=False, **o)
+            runs.append(("gate.to_kraus_matrices_from_hs", tol_, (lambda t=tol_: G.to_kraus_matrices_from_hs(cs, L(hsr)) if t is None else G.to_kraus_matrices_from_hs(cs, L(hsr), t))))
+            runs.append(("Gate.to_kraus_matrices", tol_, g.to_kraus_matrices))
+        for site, tol_, f in runs:
             r2, ks2 = call(f)
             if r2 == "err":
                 K.bad(site, "unexpected-raise", "raised %s on a CP map" % ks2)
@@ -1122,25 +1214,27 @@ def chk_gate_kraus(ctx, case):
             if any(1e-15 < abs(x) < 1e-9 for x in ev):
                 ctx.count("gate_kraus", key=(c.name, "rank-band", tuple(np.round(ev, 12))), nontrivial=False, label="hs->kraus/eigenvalue-in-band")
             elif len(ks2) != rank:
-                K.bad(site, "kraus-count", "returned %d Kraus operators for a Choi matrix of rank %d" % (len(ks2), rank))
+                K.bad(site, "kraus-count", "returned %d Kraus operators for a Choi matrix of rank %d (eigenvalues %s; tolerance argument / eps_proj_physical = %s)" % (
+                    len(ks2), rank, np.array2string(ev[ev > 1e-9], precision=3), tol_))
             if len(ks2) == 0:
                 continue
             back = m_cmat(M(ctx).call("c02.chs_of_kraus", [d, len(ks2), 0], c.bf + kraus_flat(ks2)), D, D)
-            K.eq(site, back, hsr, "certificate: HS of the returned Kraus set vs input HS", tol=1e-8, sig="kraus-certificate")
-            ctx.count("gate_kraus", key=(c.name, site, tuple(np.round(hsr.ravel(), 9))), label="hs->kraus/rank=%d" % rank)
+            K.eq(site, back, hsr, "certificate: HS of the returned Kraus set vs input HS (tolerance argument / eps_proj_physical = %s)" % tol_, tol=1e-8, sig="kraus-certificate")
+            ctx.count("gate_kraus", key=(c.name, site, tol_, tuple(np.round(hsr.ravel(), 9))), label="hs->kraus/rank=%d/tol=%s" % (rank, tol_))
 
 
 def chk_gate_noncp(ctx, case):
     """non-CP input: to_kraus_matrices_from_hs returns [] (documented)"""
     from quara.objects import gate as G
     c = cfg(case["cfg"])
-    K = Cmp(ctx, "gate_kraus", case)
+    L = Lay(case)
+    K = Cmp(ctx, "gate_kraus", case, L)
     H = np.array(case["H"], dtype=np.float64)
     choi = G.to_choi_from_hs(c.c_sys, H)
     ev = np.linalg.eigvalsh((choi + choi.conj().T) / 2)
     ctx.count("gate_kraus", key=(c.name, "noncp", tuple(H.ravel())), nontrivial=ev.min() < -1e-3, label="hs->kraus/non-CP")
     if ev.min() < -1e-3:
-        r, ks = call(G.to_kraus_matrices_from_hs, c.c_sys, H.copy())
+        r, ks = call(G.to_kraus_matrices_from_hs, c.c_sys, L(H))
         if r == "err" or len(ks) != 0:
             K.bad("gate.to_kraus_matrices_from_hs", "non-cp-branch", "lambda_min(Choi) = %.3g but result is %s" % (ev.min(), ks if r == "err" else "%d operators" % len(ks)))
 
@@ -1166,13 +1260,20 @@ def sub_gate_kraus(ctx):
             if t % 4 == 3:       # linearly dependent list (rank smaller than the list)
                 A = rand_cplx(rng, d, d) / 4
                 Ks = [A, 2 * A, rand_cplx(rng, d, d) / 4]; gen = "dependent"
-            cases.append({"cfg": n, "gen": gen, "Ks": [jc(x) for x in Ks], "X": jc(rand_cplx(rng, d, d))})
+            tols = [None, rng.choice([1e-4, 1e-6])]
+            cases.append({"cfg": n, "gen": gen, "Ks": [jc(x) for x in Ks], "X": jc(rand_cplx(rng, d, d)), "tols": tols})
+        for t in range(1 if is_smoke(ctx, n) else nn(ctx, n, 3, 12)):
+            # weak noise: a dominant operator plus small ones (scale 2^-8 / 2^-10, exactly representable), so the Choi matrix has non-zero
+            # eigenvalues of order 1e-5 .. 1e-6 - far above Settings.get_atol(), below commonly used non-default tolerances
+            A = np.eye(d, dtype=complex) + rand_cplx(rng, d, d) / 16
+            Ks = [A] + [rand_cplx(rng, d, d) * (2.0 ** -rng.choice([8, 10])) for _ in range(rng.choice([1, 2]))]
+            cases.append({"cfg": n, "gen": "weak-noise", "Ks": [jc(x) for x in Ks], "X": jc(rand_cplx(rng, d, d)), "tols": [None, 1e-4, 1e-6]})
         if not is_smoke(ctx, n) and c.hermitian and c.orthonormal:
             for _ in range(nn(ctx, n, 2, 8)):
                 noncp.append({"cfg": n, "H": rand_real(rng, c.D, c.D).tolist()})
     ctx.sample("gate_kraus", cases[0])
-    ctx.run_cases("gate_kraus", chk_gate_kraus, cases)
-    ctx.run_cases("gate_kraus", chk_gate_noncp, noncp)
+    ctx.run_cases("gate_kraus", chk_gate_kraus, decorate(ctx, cases))
+    ctx.run_cases("gate_kraus", chk_gate_noncp, decorate(ctx, noncp, opts=False))
 
 
 # ================================================================================================ variables <-> Choi
@@ -1181,7 +1282,8 @@ def chk_gate_var(ctx, case):
     to_hs_from_choi_with_sparsity (formula, truncation, ValueError branch) followed by convert_hs_to_var - theorem C02_to_var_from_choi_round_trip."""
     from quara.objects import gate as G
     c = cfg(case["cfg"])
-    K = Cmp(ctx, "gate_var", case)
+    L = Lay(case)
+    K = Cmp(ctx, "gate_var", case, L)
     d, D, cs = c.d, c.D, c.c_sys
     para = bool(case["para"])
     site = "gate.to_var_from_choi"
@@ -1204,7 +1306,7 @@ def chk_gate_var(ctx, case):
         exact = m_chs(ctx, c, Ch, 0)
         inband_ = inband(exact, ATOL)
         ms, mv = fixed(Ch)
-        r, back = call(G.to_var_from_choi, cs, Ch.copy(), para)
+        r, back = call(G.to_var_from_choi, cs, L(Ch), para)
         ctx.count("gate_var", key=(c.name, para, "choi", tuple(np.round(Ch.ravel(), 9))), nontrivial=not inband_,
                   label="choi->var/%s/%s" % (case.get("gen", "?"), "in-band" if inband_ else ms))
         if inband_:
@@ -1222,7 +1324,7 @@ def chk_gate_var(ctx, case):
     var = np.array(case["var"], dtype=float)
     ctx.count("gate_var", key=(c.name, para, tuple(var)), label="para=%s/%s" % (para, case.get("gen", "?")))
     mch = m_cmat(M(ctx).call("c02.choi_of_var", [d, int(para)], c.bf + [float(x) for x in var]), D, D)
-    ch = G.to_choi_from_var(cs, var.copy(), para)
+    ch = G.to_choi_from_var(cs, L(var), para)
     if not K.eq("gate.to_choi_from_var", ch, mch, "to_choi_from_var"):
         return
     ms, mv = fixed(np.asarray(ch))
@@ -1231,7 +1333,7 @@ def chk_gate_var(ctx, case):
             K.bad("model-variants", "value", "model: repaired to_var_from_choi raises on the Choi matrix of a variable vector (contradicts theorem C02_to_var_from_choi_round_trip)")
             return
         K.eq("model-variants", mv, var, "model: repaired to_var_from_choi recovers the variables (theorem C02_to_var_from_choi_round_trip)", tol=1e-11)
-    r, back = call(G.to_var_from_choi, cs, np.asarray(ch).copy(), para)
+    r, back = call(G.to_var_from_choi, cs, L(ch), para)
     if r == "err":
         K.bad(site, "unexpected-raise", "raised %s on the Choi matrix of a variable vector" % back)
         return
@@ -1276,7 +1378,7 @@ def sub_gate_var(ctx):
                     cases.append({"cfg": n, "kind": "choi", "gen": "hermitian" if herm else "complex", "para": para,
                                   "Ch": jc(rand_herm(rng, c.D) if herm else rand_cplx(rng, c.D, c.D))})
     ctx.sample("gate_var", cases[0])
-    ctx.run_cases("gate_var", chk_gate_var, cases)
+    ctx.run_cases("gate_var", chk_gate_var, decorate(ctx, cases))
 
 
 # ================================================================================================ MProcess
@@ -1284,11 +1386,12 @@ def chk_mprocess(ctx, case):
     from quara.objects import mprocess as MP
     from quara.objects import gate as G
     c = cfg(case["cfg"])
-    K = Cmp(ctx, "mprocess", case)
+    L = Lay(case)
+    K = Cmp(ctx, "mprocess", case, L)
     d, D, cs = c.d, c.D, c.c_sys
     hss = [np.array(h, dtype=np.float64) for h in case["hss"]]
     shape = tuple(case["shape"])
-    mp = MP.MProcess(cs, [h.copy() for h in hss], shape=shape, is_physicality_required=False)
+    mp = MP.MProcess(cs, L.many(hss), shape=shape, is_physicality_required=False, **opts_of(case))
     ctx.count("mprocess", key=(c.name, shape, tuple(np.concatenate([h.ravel() for h in hss]))), label="shape=%s" % (shape,))
     multi = list(itertools.product(*[range(s) for s in shape]))
     light = bool(case.get("light"))      # quick-tier smoke configuration (d = 6): layout of every outcome, the conversions of the LAST outcome only
@@ -1352,20 +1455,21 @@ def sub_mprocess(ctx):
                     hss.append(np.ascontiguousarray((U @ cb @ U.conj().T).real))
             cases.append({"cfg": n, "shape": list(shape), "hss": [h.tolist() for h in hss], "light": is_smoke(ctx, n)})
     ctx.sample("mprocess", cases[0])
-    ctx.run_cases("mprocess", chk_mprocess, cases)
+    ctx.run_cases("mprocess", chk_mprocess, decorate(ctx, cases))
 
 
 # ================================================================================================ truncate_hs
 def chk_truncate(ctx, case):
     from quara.utils import matrix_util as mu
-    K = Cmp(ctx, "truncate", case)
+    L = Lay(case)
+    K = Cmp(ctx, "truncate", case, L)
     A = uj(case["A"])
     eps = case.get("eps")
     e = ATOL if eps is None else eps
-    inband_ = inband(A, e)
+    inband_ = inband(A, e) and not case.get("exact")      # 'exact': every number is a small dyadic, |x| < eps is decided without rounding on both sides
     m, n = A.shape
     st, val = M(ctx).try_call("c02.truncate", [m, n], [float(e)] + cflat(A))
-    arg = A.copy() if case.get("complex", True) else A.real.copy()
+    arg = L(A) if case.get("complex", True) else L(A.real)
     r, iv = call(mu.truncate_hs, arg, eps)
     ctx.count("truncate", key=(tuple(np.round(A.ravel(), 18)), eps), nontrivial=not inband_, label=("in-band" if inband_ else st) + "/" + case.get("gen", "?"))
     if inband_:
@@ -1404,8 +1508,22 @@ def sub_truncate(ctx):
             if rng.random() < 0.5:
                 A[rng.randrange(m), rng.randrange(n)] += 1j * (1e5 * e if e > 0 else 0.5)
         cases.append({"A": jc(A), "eps": eps, "gen": kind, "complex": not (kind in ("real", "tiny-re") and rng.random() < 0.5)})
+    for _ in range(ctx.n(24, 120)):
+        # exactly AT the thresholds with exactly representable numbers (eps = 2^-20, entries eps, eps(1 +- 2^-20), real parts <= 1 so that the
+        # imaginary threshold is eps itself before and after fix truncate-hs-relative-imag-threshold): |x| < eps is strict
+        m, n = rng.choice([(1, 3), (2, 2), (3, 3)])
+        eps = 2.0 ** -20
+        A = (rand_real(rng, m, n) / 2).astype(complex)
+        i, j = rng.randrange(m), rng.randrange(n)
+        which = rng.choice(["im=eps", "im<eps", "im>eps", "re=eps", "re<eps", "re>eps"])
+        val = {"=": eps, "<": eps * (1 - 2.0 ** -20), ">": eps * (1 + 2.0 ** -20)}[which[2]] * rng.choice([1, -1])
+        if which.startswith("im"):
+            A[i, j] = A[i, j].real + 1j * val
+        else:
+            A[i, j] = val
+        cases.append({"A": jc(A), "eps": eps, "gen": "exact-" + which, "complex": True, "exact": True})
     ctx.sample("truncate", cases[0])
-    ctx.run_cases("truncate", chk_truncate, cases)
+    ctx.run_cases("truncate", chk_truncate, decorate(ctx, cases, opts=False))
 
 
 # ================================================================================================ linearity (implementation only)
@@ -1422,8 +1540,11 @@ def chk_linearity(ctx, case):
     tb = cs.comp_basis()
     ctx.count("linearity", key=(c.name, al, be, tuple(v)), label="d=%d" % d)
 
+    L = Lay(case)
+    K.lay = L
+
     def lin(site, f, x, y, a, b):
-        K.eq(site, f(a * x + b * y), a * np.asarray(f(x)) + b * np.asarray(f(y)), "f(ax+by) = a f(x) + b f(y)", tol=1e-10, sig="not-linear")
+        K.eq(site, f(L(a * x + b * y)), a * np.asarray(f(L(x))) + b * np.asarray(f(L(y))), "f(ax+by) = a f(x) + b f(y)", tol=1e-10, sig="not-linear")
     lin("state.to_density_matrix_from_vec", lambda x: S.to_density_matrix_from_vec(cs, x), v, w, al, be)
     lin("povm.to_matrices_from_vecs", lambda x: P.to_matrices_from_vecs(cs, [x])[0], v, w, al, be)
     lin("matrix_basis.convert_vec", lambda x: mb.convert_vec(x, cs.basis(), tb), v, w, al, be)
@@ -1452,7 +1573,7 @@ def sub_linearity(ctx):
                           "H1": jc(rand_cplx(rng, c.D, c.D)), "H2": jc(rand_cplx(rng, c.D, c.D)),
                           "X1": jc(rand_herm(rng, c.d)), "X2": jc(rand_herm(rng, c.d))})
     ctx.sample("linearity", cases[0])
-    ctx.run_cases("linearity", chk_linearity, cases)
+    ctx.run_cases("linearity", chk_linearity, decorate(ctx, cases, opts=False))
 
 
 SUBS = [("basis", sub_basis), ("tables", sub_tables), ("table_history", sub_table_history), ("state", sub_state), ("povm", sub_povm), ("gate_choi", sub_gate_choi),
